@@ -97,6 +97,10 @@ class ConnSession:
             import serial
             raise serial.SerialException("could not open port")
         self.nopen = getattr(self, "nopen", 0) + 1
+        if self.nopen > 1 and self.spec.get("reconnect_device"):
+            # connect() called again on the SAME YncaConnection object (as ynca/terminal.py does after a disconnect): a fresh link
+            self.dev = make_device(self.spec["reconnect_device"], None)
+            return sched.VSerial(self.dev)
         if self.nopen > 1 and self.spec.get("second"):
             self.dev2 = make_device(self.spec["second"].get("device"), None)
             return sched.VSerial(self.dev2)
@@ -167,6 +171,8 @@ class ConnSession:
                 c.unregister_message_callback(self._msg_cb(op[1]))
             elif k == "close":
                 c.close()
+            elif k == "reconnect":
+                c.connect(self._disc_cb if self.spec.get("disconnect_cb", True) else None, self.spec.get("log_size", 0))
             elif k == "close2":
                 self.conn2.close()
             elif k == "put2":
